@@ -506,7 +506,69 @@ def enumerate_cases(tier):
         for user_first in (True, False):
             for reinits in (1, 2):
                 cases.append({"kind": "sim-listeners", "stat": stat, "user_first": user_first, "reinits": reinits})
+    # one payload OBJECT fired more than once: what is checked is what it contains at each firing
+    for mutation in ("wrong-type", "extra-key", "missing-key", "none"):
+        for timed in (False, True):
+            for first in ("checked", "check-off-nonconforming"):
+                for other_producer in (False, True):
+                    cases.append({"kind": "payload-reuse", "mutation": mutation, "timed": timed, "first": first,
+                                  "other_producer": other_producer})
     return cases
+
+
+def _run_payload_reuse(case, out):
+    pubsub, types, _m = _env()
+    T = types[3]                                   # metadata {"a": int, "b": str}
+    got = []
+
+    class L(pubsub.EventListener):
+        def notify(self, event):
+            got.append(dict(event.content) if isinstance(event.content, dict) else event.content)
+
+    p1 = pubsub.EventProducer()
+    p2 = pubsub.EventProducer() if case["other_producer"] else p1
+    lis = L()
+    p1.add_listener(T, lis)
+    if p2 is not p1:
+        p2.add_listener(T, lis)
+
+    def fire(p, payload, **kw):
+        if case["timed"]:
+            return _guard(lambda: p.fire_timed(1.5, T, payload, **kw))
+        return _guard(lambda: p.fire(T, payload, **kw))
+    d = {"a": 1, "b": "x"}
+    if case["first"] == "checked":
+        e1 = fire(p1, d)
+        if e1 is not None or got != [{"a": 1, "b": "x"}]:
+            out.fail("event:refused:conforming", {"error": repr(e1), "delivered": got})
+            return
+        if case["mutation"] == "wrong-type":
+            d["a"] = "one"
+        elif case["mutation"] == "extra-key":
+            d["c"] = 3
+        elif case["mutation"] == "missing-key":
+            del d["b"]
+    else:
+        d = {"a": "one", "b": 2} if case["mutation"] != "none" else d
+        e1 = fire(p1, d, check=False)
+        if e1 is not None:
+            out.fail("event:refused:check-off", {"error": repr(e1)})
+            return
+    n0 = len(got)
+    e2 = fire(p2, d)                                 # the very same object again, checking on
+    conforming = case["mutation"] == "none"
+    if conforming:
+        if e2 is not None or len(got) != n0 + 1:
+            out.fail("event:refused:conforming", {"error": repr(e2), "second_fire": True})
+    else:
+        if e2 is None:
+            out.fail("event:accepted:same-payload-object-fired-again", {"payload_now": repr(d), "delivered": got[n0:]})
+        elif not isinstance(e2, pubsub.EventError):
+            out.fail("event:wrong-exception:" + type(e2).__name__, repr(e2))
+        elif len(got) != n0:
+            out.fail("delivery:extra", {"note": "a refused event was delivered", "delivered": got[n0:]})
+    out.nontrivial = True
+    out.label("kind=payload-reuse")
 
 
 def _run_sim_listeners(case, out):
@@ -532,12 +594,16 @@ def _run_sim_listeners(case, out):
 
     la, lb = L("a"), L("b")
     sim = DEVSSimulatorFloat("c08-sim")
+    stats = []
+    types2 = [_env()[1][0]]                          # a plain event type without metadata
 
     class M(DSOLModel):
         def construct_model(self):
             st_ = getattr(S, case["stat"])("k", "stat", self.simulator)
             st_.listen_to(prod, et)
+            st_.listen_to(prod, types2[0])          # a second event type of the same producer
             self.stat = st_
+            stats.append(st_)
 
     def fire(v):
         if et is StatEvents.TIMESTAMP_DATA_EVENT:
@@ -565,8 +631,19 @@ def _run_sim_listeners(case, out):
             out.fail("delivery:missing" if missing else "delivery:order",
                      {"scenario": "ordinary listeners next to a simulation statistic across initialize()",
                       "got": got, "want": want})
-        if case["stat"] != "SimPersistent" and model.stat.n() != 1:     # (a persistent counts intervals)
-            out.fail("delivery:wrong-recipients", {"statistic_n": model.stat.n(), "want": 1,
+        # the second event type: only the statistic of the current replication may still be listening
+        n_old = [s_.n() for s_ in stats[:-1]]
+        try:
+            if et is not StatEvents.TIMESTAMP_DATA_EVENT:
+                prod.fire(types2[0], 1 if case["stat"] == "SimCounter" else 1.0)
+        except Exception as e:
+            out.fail("delivery:wrong-recipients", {"note": "a statistic of an earlier replication is still "
+                                                           "subscribed and fails", "error": repr(e)})
+        if [s_.n() for s_ in stats[:-1]] != n_old:
+            out.fail("delivery:wrong-recipients", {"note": "a statistic of an earlier replication still receives "
+                                                           "the second event type"})
+        if case["stat"] != "SimPersistent" and model.stat.n() != 2:     # (a persistent counts intervals)
+            out.fail("delivery:wrong-recipients", {"statistic_n": model.stat.n(), "want": 2,
                                                    "note": "only the statistic of the current replication listens"})
     except Exception as e:
         out.fail("sim-listeners-raises:" + type(e).__name__, repr(e))
@@ -583,6 +660,9 @@ def run_case(case):
     out = Outcome()
     if case.get("kind") == "sim-listeners":
         _run_sim_listeners(case, out)
+        return out
+    if case.get("kind") == "payload-reuse":
+        _run_payload_reuse(case, out)
         return out
     return _run_case_history(case, out)
 
